@@ -829,6 +829,21 @@ func main() {
 		bgV := map[string]term{"req": {"q", kReq}, "urlKey": {"url_key", kS}, "stored": {"stored", kEntry}, "freshness": {"f", kFresh}, "ccReq": {"cc_req", kCCq}}
 		translateEffects(effSpec{file: "roundtripper.go", fn: "backgroundRevalidate", coq: "src_background_revalidate", params: "(q : request) (stored : stored_entry) (url_key : bytes) (f : freshness) (cc_req : directives)", ret: "prog unit",
 			unit: true, inner: true, env: mk(bgV, nil)}, rootByName, rootCE, &out)
+		qual := map[string]term{"noCacheQualified": {"match qualified with Some _ => true | None => false end", kB}, "noCacheFieldsSeq": {"qualified", kO}}
+		sfV := map[string]term{"req": {"q", kReq}, "urlKey": {"url_key", kS}, "stored": {"stored", kEntry}, "freshness": {"f", kFresh}, "ccReq": {"cc_req", kCCq}}
+		for k, v := range qual {
+			sfV[k] = v
+		}
+		// the clock readings inside these two (SetAgeHeader) happen at the instant of the caller's reading: `now` is a parameter
+		withNow := func(f func() *eenv) func() *eenv {
+			return func() *eenv { e := f(); e.now = "now"; return e }
+		}
+		translateEffects(effSpec{file: "roundtripper.go", fn: "serveFromCache", coq: "src_serve_from_cache", params: "(stored : stored_entry) (f : freshness) (now : Z) (qualified : option (list bytes))", ret: "prog outcome",
+			env: withNow(mk(sfV, nil))}, rootByName, rootCE, &out)
+		translateEffects(effSpec{file: "roundtripper.go", fn: "handleStaleWhileRevalidate", coq: "src_handle_stale_while_revalidate", params: "(q : request) (stored : stored_entry) (url_key : bytes) (f : freshness) (cc_req : directives) (now : Z) (qualified : option (list bytes))", ret: "prog outcome",
+			env: withNow(mk(sfV, nil))}, rootByName, rootCE, &out)
+		translateEffects(effSpec{file: "responsestorerer.go", fn: "StoreResponse", coq: "src_store_response", params: "(q : request) (r : response) (url_key : bytes) (refs : list (option ref)) (req_at recv_at : Z) (ref_index : Z)", ret: "prog response",
+			respLeaf: true, env: mk(map[string]term{"req": {"q", kReq}, "resp": {"r", kResp}, "urlKey": {"url_key", kS}, "refs": {"refs", kRefs}, "reqTime": {"req_at", kZ}, "respTime": {"recv_at", kZ}, "refIndex": {"ref_index", kZ}}, nil)}, intByName, intCE, &out)
 		// the handler is always built with a storer (newTransport); a unit test of the repository builds one without
 		translateEffects(effSpec{file: "validationresponsehandler.go", fn: "HandleValidationResponse", coq: "src_handle_validation_response", params: "(ctx : reval_ctx) (q : request) (rep : origin_reply)", ret: "prog outcome",
 			pair: true, env: mk(map[string]term{"req": {"q", kReq}, "ctx": {"ctx", kCtx}}, map[string]bool{"r.rs != nil": true})}, intByName, intCE, &out)
